@@ -21,7 +21,7 @@ RULE = ("Hypothesis histories: graph x constructor arguments x a sequence of <=3
         "text (ShExC byte for byte, SHACL graph-isomorphic), file bytes == string, the caller's namespaces dict unchanged.  "
         "Non-trivial: >=2 calls differing in threshold/format/sink, or output > 5 000 lines; distinct by SHA-1 of the case.")
 ASSUMPTIONS = ["rdflib.compare.isomorphic for SHACL graphs (rdflib's Turtle serialisation orders blank nodes by random ids)"]
-BUDGET = {"quick": {"examples": 6400, "wall": 200}, "thorough": {"examples": 60000, "wall": 5400}}
+BUDGET = {"quick": {"examples": 6400, "wall": 200}, "thorough": {"examples": 30000, "wall": 900}}
 FLOORS = {"nontrivial": 0.15, "big-output": 0.01, "second-shaper": 0.1, "over-5000-lines": 0.005}
 
 
